@@ -473,7 +473,18 @@ func checkCommentLineForCheckIgnore(
 	ruleID string,
 ) bool {
 	fullIgnorePrefix := commentIgnorePrefix + " " + ruleID
-	return strings.HasPrefix(commentLine, fullIgnorePrefix)
+	remainder, ok := strings.CutPrefix(commentLine, fullIgnorePrefix)
+	if !ok {
+		return false
+	}
+	// The ruleID must end here. If the next character continues a rule ID, the comment names a
+	// different, longer rule ID that ruleID is merely a prefix of (i.e. COMMENT_ENUM_VALUE for COMMENT_ENUM).
+	if remainder != "" {
+		if c := remainder[0]; c == '_' || (c >= 'A' && c <= 'Z') || (c >= '0' && c <= '9') {
+			return false
+		}
+	}
+	return true
 }
 
 type lintOptions struct {
